@@ -281,9 +281,45 @@ func (m *Machine) lockHeld(p *PtrV) *Term {
 	return res
 }
 
-type lockWatch struct{}
+// lockWatch: C16's lock discipline.  While active, every load/store of an object
+// in the watched set must happen while the designated mutex is write-held.
+// lockReadHeld: some reader holds the RWMutex.
+func (m *Machine) lockReadHeld(p *PtrV) *Term {
+	var res *Term = TS.False
+	for _, a := range p.Alts {
+		key := fmt.Sprintf("lock#%d%v", a.Obj.id, a.Path)
+		rd, _ := m.ghost[key+"r"].(*Term)
+		if rd == nil {
+			continue
+		}
+		res = Or(res, And(a.G, Not(Eq(rd, Const(64, 0)))))
+	}
+	return res
+}
 
-func (lw *lockWatch) access(m *Machine, p *PtrV, g *Term, site ssa.Instruction)   {}
+type lockWatch struct {
+	objs map[*Object]bool
+	lock *PtrV
+	n    int
+}
+
+func (lw *lockWatch) access(m *Machine, p *PtrV, g *Term, site ssa.Instruction, store bool) {
+	for _, a := range p.Alts {
+		if !lw.objs[a.Obj] {
+			continue
+		}
+		lw.n++
+		held := m.lockHeld(lw.lock)
+		if !store {
+			held = Or(held, m.lockReadHeld(lw.lock))
+		}
+		bad := And(g, a.G, Not(held))
+		if !bad.IsFalse() {
+			m.pendingNP = append(m.pendingNP, npRec{bad, "assert", "shared state is only touched while the lock is held", m.posOf(site)})
+		}
+	}
+}
+
 func (lw *lockWatch) lockEvent(m *Machine, key string, acq, read bool, g *Term) {}
 
 // ---------- go-funk ----------
